@@ -66,6 +66,28 @@ fn from_value_word(text: &str) -> &'static str {
     }
 }
 
+/// from_value of the text's YAML value next to the rule from_str built from the text: `ok` only
+/// if it loads to the same trees and the same examples.
+fn from_value_same(text: &str, r1: &Rule) -> &'static str {
+    match serde_yaml::from_str::<serde_yaml::Value>(text) {
+        Err(_) => "err",
+        Ok(y) => match guarded(|| Rule::from_value(y)) {
+            None => "panic",
+            Some(Err(_)) => "err",
+            Some(Ok(r2)) => {
+                if same_trees(r1, &r2)
+                    && r1.true_positives == r2.true_positives
+                    && r1.true_negatives == r2.true_negatives
+                {
+                    "ok"
+                } else {
+                    "differs"
+                }
+            }
+        },
+    }
+}
+
 #[allow(dead_code)]
 fn load_failed(id: &str, word: &str) -> Out {
     let mut w = begin(id);
@@ -750,7 +772,7 @@ pub fn case_rt(id: &str, v: &serde_json::Value) -> Option<Out> {
     }
 
     // ---- from_value next to from_str -------------------------------------------------------------
-    tagged(&mut w, "fromvalue", from_value_word(&text));
+    tagged(&mut w, "fromvalue", from_value_same(&text, &r1));
 
     w.head("len");
     match &s {
